@@ -16,7 +16,7 @@ def runLog : State → List Op → State × Done
 /-- how often request `r` occurs -/
 def cLog (r : Nat) (d : Done) : Nat := (d.map (·.1)).count r
 def cPend (r : Nat) (ps : List Pend) : Nat := (ps.map (·.req)).count r
-def cQueue (r : Nat) (qs : List Queued) : Nat := (qs.map (·.req)).count r
+def cQueue (r : Nat) (qs : List Queued) : Nat := (qs.filterMap (·.req)).count r
 
 /-- Accounting invariant: every request submitted so far (numbers below `nextReq`) is in exactly
 one place — completed, pending in `message_states`, or still in the request channel — and numbers
@@ -39,7 +39,7 @@ theorem cPend_append (r : Nat) (a b : List Pend) : cPend r (a ++ b) = cPend r a 
   simp [cPend, List.count_append]
 
 theorem cQueue_append (r : Nat) (a b : List Queued) : cQueue r (a ++ b) = cQueue r a + cQueue r b := by
-  simp [cQueue, List.count_append]
+  simp [cQueue, List.filterMap_append, List.count_append]
 
 /-- splitting the pending requests into timed-out and remaining ones loses nobody -/
 theorem cPend_filter (r : Nat) (ps : List Pend) :
@@ -105,8 +105,10 @@ theorem cPend_single (r : Nat) (p : Pend) : cPend r [p] = if p.req = r then 1 el
   simp [cPend, List.count_cons]
 
 theorem cQueue_cons (r : Nat) (q : Queued) (qs : List Queued) :
-    cQueue r (q :: qs) = cQueue r qs + (if q.req = r then 1 else 0) := by
-  simp [cQueue, List.count_cons]
+    cQueue r (q :: qs) = cQueue r qs + (if q.req = some r then 1 else 0) := by
+  cases hq : q.req with
+  | none => simp [cQueue, List.filterMap_cons, hq]
+  | some x => simp [cQueue, List.filterMap_cons, hq, List.count_cons]
 
 theorem sweep_acc (s : State) (log : Done) (h : Acc s log) : Acc (sweep s).1 (log ++ (sweep s).2) := by
   intro r
@@ -162,8 +164,24 @@ theorem step_acc (s : State) (log : Done) (op : Op) (h : Acc s log) :
     by_cases hc : s.closed = true
     · simp only [hc, if_true, cLog_append, cLog_single, hex]; omega
     · simp only [hc, Bool.false_eq_true, if_false, cQueue_append, List.append_nil, hex]
-      have : cQueue r [⟨s.nextReq, late⟩] = if s.nextReq = r then 1 else 0 := by
+      have : cQueue r [⟨some s.nextReq, late⟩] = if s.nextReq = r then 1 else 0 := by
         simp [cQueue, List.count_cons]
+      rw [this]; omega
+  | submitNoResponse late =>
+    intro r
+    have := h r
+    have hex : expect r (s.nextReq + 1) = expect r s.nextReq + (if s.nextReq = r then 1 else 0) := by
+      unfold expect
+      by_cases e : s.nextReq = r
+      · subst e; simp
+      · by_cases l : r < s.nextReq
+        · rw [if_pos l, if_pos (by omega), if_neg e]
+        · rw [if_neg l, if_neg (by omega), if_neg e]
+    simp only [step, submitNoResponse]
+    by_cases hc : s.closed = true
+    · simp only [hc, if_true, cLog_append, cLog_single, hex]; omega
+    · simp only [hc, Bool.false_eq_true, if_false, cQueue_append, cLog_append, cLog_single, hex]
+      have : cQueue r [⟨none, late⟩] = 0 := by simp [cQueue]
       rw [this]; omega
   | pump =>
     have hs := sweep_acc s log h
@@ -175,31 +193,46 @@ theorem step_acc (s : State) (log : Done) (op : Op) (h : Acc s log) :
       | nil => simpa [hq] using this
       | cons q rest =>
         rw [hq, cQueue_cons] at this
-        simp only [cPend_append, cPend_single]
-        omega
+        cases hr : q.req with
+        | none =>
+          simp only [hr, List.append_nil, reduceCtorEq, if_false] at this ⊢
+          omega
+        | some x =>
+          simp only [hr, cPend_append, cPend_single, Option.some.injEq] at this ⊢
+          omega
     · simpa using this
   | sweep => exact sweep_acc s log h
-  | expire rid =>
+  | setDeadline rid d =>
     intro r
     have := h r
-    simp only [step, expire]
+    simp only [step, setDeadline]
     cases hf : findRid s.pending rid with
     | none => simpa using this
     | some p =>
       have hrid := (findRid_rid _ _ _ hf).1
-      have := cPend_replace r s.pending p { p with expired := true } (by simpa [hrid] using hf) rfl
+      have := cPend_replace r s.pending p { p with deadline := d } (by simpa [hrid] using hf) rfl
       simp only [List.append_nil, this]; exact h r
   | chunk c => exact chunk_acc s log c h
   | close st =>
     intro r
     have := h r
-    simp only [step, close, cLog_append, cPend, cQueue, List.map_nil, List.count_nil]
-    simp only [cLog, cPend, cQueue, List.map_map] at this ⊢
-    have e1 : (Prod.fst ∘ fun (p : Pend) => (p.req, Res.err (if st / 1073741824 = 0 then BadConnectionClosed else st)))
-        = (fun p => p.req) := rfl
-    have e2 : (Prod.fst ∘ fun (q : Queued) => (q.req, Res.err (if st / 1073741824 = 0 then BadConnectionClosed else st)))
-        = (fun q => q.req) := rfl
-    simp only [List.count_append, e1, e2]
+    have e1 : ∀ (x : Nat) (ps : List Pend), cLog r (ps.map (fun p => (p.req, Res.err x))) = cPend r ps := by
+      intro x ps; simp [cLog, cPend, List.map_map, Function.comp_def]
+    have e2 : ∀ (x : Nat) (qs : List Queued),
+        cLog r (qs.filterMap (fun q => q.req.map (fun r' => (r', Res.err x)))) = cQueue r qs := by
+      intro x qs
+      induction qs with
+      | nil => simp [cLog, cQueue]
+      | cons q qs ih =>
+        cases hq : q.req with
+        | none => simpa [cLog, cQueue, List.filterMap_cons, hq] using ih
+        | some y =>
+          simp only [cLog, cQueue, List.filterMap_cons, hq, Option.map_some, List.map_cons, List.count_cons] at ih ⊢
+          omega
+    simp only [step, close, cLog_append, e1, e2]
+    have z1 : cPend r ([] : List Pend) = 0 := by simp [cPend]
+    have z2 : cQueue r ([] : List Queued) = 0 := by simp [cQueue]
+    simp only [z1, z2]
     omega
   | errmsg => intro r; simpa [step] using h r
 
@@ -243,8 +276,11 @@ theorem pump_closed (s : State) : (pump s).1.closed = s.closed := by
   · split <;> rfl
   · rfl
 
-theorem expire_closed (s : State) (rid : Nat) : (expire s rid).1.closed = s.closed := by
-  unfold expire; split <;> rfl
+theorem setDeadline_closed (s : State) (rid : Nat) (d : Int) : (setDeadline s rid d).1.closed = s.closed := by
+  unfold setDeadline; split <;> rfl
+
+theorem submitNoResponse_closed (s : State) (l : Bool) : (submitNoResponse s l).1.closed = s.closed := by
+  unfold submitNoResponse; split <;> rfl
 
 theorem chunk_closed (s : State) (c : Chunk) : (chunk s c).1.closed = s.closed := by
   unfold chunk
@@ -284,11 +320,16 @@ theorem step_closedEmpty (s : State) (op : Op) (h : ClosedEmpty s) : ClosedEmpty
     rw [sweep_closed] at hc
     have ⟨hp, hq⟩ := h hc
     simp [sweep, hp, hq]
-  | expire rid =>
+  | setDeadline rid d =>
     simp only [step] at hc ⊢
-    rw [expire_closed] at hc
+    rw [setDeadline_closed] at hc
     have ⟨hp, hq⟩ := h hc
-    simp [expire, findRid, hp, hq]
+    simp [setDeadline, findRid, hp, hq]
+  | submitNoResponse late =>
+    simp only [step] at hc ⊢
+    rw [submitNoResponse_closed] at hc
+    have ⟨hp, hq⟩ := h hc
+    simp [submitNoResponse, hc, hp, hq]
   | chunk c =>
     simp only [step] at hc ⊢
     rw [chunk_closed] at hc
@@ -308,7 +349,7 @@ theorem exactly_once_after_close (a b : Nat) (ops : List Op)
     cLog r (runLog (init a b) ops).2 = 1 := by
   have hacc := run_acc ops (init a b) [] (init_acc a b) r
   have hce := run_closedEmpty ops (init a b) (by intro h; simp [init] at h) hc
-  simp only [List.nil_append, hce.1, hce.2, cPend, cQueue, List.map_nil, List.count_nil] at hacc
+  simp only [List.nil_append, hce.1, hce.2, cPend, cQueue, List.map_nil, List.filterMap_nil, List.count_nil] at hacc
   unfold expect at hacc
   rw [if_pos hr] at hacc
   omega
@@ -402,8 +443,15 @@ theorem right_recipient (s : State) (hf : ChunksFiled s) (op : Op) (q m : Nat) (
     · split at h <;> exact absurd rfl (hsw _ h)
     · exact absurd rfl (hsw _ h)
   | sweep => simp [step, sweep] at h
-  | expire rid => simp [step] at h
-  | close st => simp [step, close] at h
+  | setDeadline rid d => simp [step] at h
+  | submitNoResponse late =>
+    simp only [step, submitNoResponse] at h
+    by_cases hc : s.closed = true <;> simp [hc] at h
+  | close st =>
+    simp only [step, close, List.mem_append, List.mem_map, List.mem_filterMap, Prod.mk.injEq] at h
+    rcases h with ⟨_, _, _, h⟩ | ⟨q', _, h⟩
+    · cases h
+    · cases hq : q'.req <;> simp [hq] at h
   | errmsg => simp [step] at h
   | chunk c =>
     simp only [step] at h
@@ -476,11 +524,16 @@ theorem step_chunksFiled (s : State) (op : Op) (h : ChunksFiled s) : ChunksFiled
         intro p hp c hc
         rcases List.mem_append.mp hp with hp | hp
         · exact hsw p hp c hc
-        · simp only [List.mem_singleton] at hp; subst hp; simp at hc
+        · cases hr : q.req with
+          | none => simp [hr] at hp
+          | some x => simp only [hr, List.mem_singleton] at hp; subst hp; simp at hc
     · exact hsw
   | sweep => intro p hp; exact h p (List.mem_filter.mp hp).1
-  | expire rid =>
-    simp only [step, expire]
+  | submitNoResponse late =>
+    simp only [step, submitNoResponse]
+    split <;> exact h
+  | setDeadline rid d =>
+    simp only [step, setDeadline]
     cases hf : findRid s.pending rid with
     | none => exact h
     | some p =>
@@ -550,13 +603,23 @@ theorem timeout_only_after_deadline (s : State) (op : Op) (q : Nat)
     · split at h <;> exact h
     · exact h
   | sweep => left; exact sweepCase (by simpa [step] using h)
-  | expire rid => simp [step] at h
+  | setDeadline rid d => simp [step] at h
+  | submitNoResponse late =>
+    simp only [step, submitNoResponse] at h
+    split at h <;> simp [BadTimeout, BadConnectionClosed] at h
   | errmsg => simp [step] at h
   | close st =>
     right
-    simp only [step, close, List.mem_append, List.mem_map, Prod.mk.injEq, Res.err.injEq] at h
+    simp only [step, close, List.mem_append, List.mem_map, List.mem_filterMap, Prod.mk.injEq, Res.err.injEq] at h
     have : (if st / 1073741824 = 0 then BadConnectionClosed else st) = BadTimeout := by
-      rcases h with ⟨_, _, _, h⟩ | ⟨_, _, _, h⟩ <;> exact h
+      rcases h with ⟨_, _, _, h⟩ | ⟨q', _, h⟩
+      · exact h
+      · cases hq : q'.req with
+        | none => rw [hq] at h; simp at h
+        | some y =>
+          rw [hq] at h
+          simp only [Option.map_some, Option.some.injEq, Prod.mk.injEq, Res.err.injEq] at h
+          exact h.2
     split at this
     · simp [BadTimeout, BadConnectionClosed] at this
     · rw [this]
@@ -585,6 +648,52 @@ theorem timeout_only_after_deadline (s : State) (op : Op) (q : Nat)
 theorem not_expired_survives_sweep (s : State) (p : Pend) (hp : p ∈ s.pending) (he : p.expired = false) :
     p ∈ (sweep s).1.pending := by
   simp [sweep, List.mem_filter, hp, he]
+
+/-- `expired` is exactly "the deadline is not in the future" -/
+theorem expired_iff (p : Pend) : p.expired = true ↔ p.deadline ≤ 0 := by
+  simp [Pend.expired]
+
+/-- the instant `next_timeout` returns is the earliest of the remaining deadlines -/
+theorem minDeadline_spec (ps : List Pend) (m : Int) (h : minDeadline ps = some m) :
+    (∃ p ∈ ps, p.deadline = m) ∧ ∀ p ∈ ps, m ≤ p.deadline := by
+  induction ps generalizing m with
+  | nil => simp [minDeadline] at h
+  | cons x xs ih =>
+    simp only [minDeadline] at h
+    cases hm : minDeadline xs with
+    | none =>
+      simp only [hm, Option.some.injEq] at h
+      cases xs with
+      | nil => subst h; simp
+      | cons y ys => simp only [minDeadline] at hm; split at hm <;> simp at hm
+    | some m' =>
+      simp only [hm, Option.some.injEq] at h
+      have ⟨⟨p, hp, hpm⟩, hall⟩ := ih m' hm
+      by_cases hlt : x.deadline < m'
+      · rw [if_pos hlt] at h; subst h
+        refine ⟨⟨x, by simp, rfl⟩, ?_⟩
+        intro q hq
+        rcases List.mem_cons.mp hq with rfl | hq
+        · exact Int.le_refl _
+        · have := hall q hq; omega
+      · rw [if_neg hlt] at h; subst h
+        refine ⟨⟨p, List.mem_cons_of_mem _ hp, hpm⟩, ?_⟩
+        intro q hq
+        rcases List.mem_cons.mp hq with rfl | hq
+        · omega
+        · exact hall q hq
+
+/-- **next_timeout_earliest**: what `next_timeout` reports lies in the future, belongs to a pending
+request, and no remaining request is due earlier -/
+theorem next_timeout_earliest (s : State) (m : Int) (h : nextTimeout s = some m) :
+    0 < m ∧ (∃ p ∈ s.pending, p.deadline = m) ∧ ∀ p ∈ s.pending, p.expired = false → m ≤ p.deadline := by
+  have ⟨⟨p, hp, hpm⟩, hall⟩ := minDeadline_spec _ m h
+  have hpf := List.mem_filter.mp hp
+  refine ⟨?_, ⟨p, hpf.1, hpm⟩, ?_⟩
+  · have : p.expired = false := by simpa using hpf.2
+    simp [Pend.expired] at this; omega
+  · intro q hq he
+    exact hall q (List.mem_filter.mpr ⟨hq, by simp [he]⟩)
 
 /-- request ids of pending requests are strictly increasing (hence unique: the association list is
 a faithful picture of the `HashMap`) and never above the last id handed out -/
@@ -624,11 +733,12 @@ theorem ridsOk_replace (s : State) (q : Pend) (h : RidsOk s) (hq : q.rid ≤ s.l
 theorem step_ridsOk (s : State) (op : Op) (h : RidsOk s) : RidsOk (step s op).1 := by
   cases op with
   | submit late => simp only [step, submit]; split <;> exact h
+  | submitNoResponse late => simp only [step, submitNoResponse]; split <;> exact h
   | sweep => exact ridsOk_sub s _ h (List.filter_sublist)
   | errmsg => exact h
   | close st => exact ⟨by simp [step, close], by intro p hp; simp [step, close] at hp⟩
-  | expire rid =>
-    simp only [step, expire]
+  | setDeadline rid d =>
+    simp only [step, setDeadline]
     cases hf : findRid s.pending rid with
     | none => exact h
     | some p =>
@@ -641,23 +751,28 @@ theorem step_ridsOk (s : State) (op : Op) (h : RidsOk s) : RidsOk (step s op).1 
     · cases hq : (sweep s).1.queue with
       | nil => simpa [hq] using hsw
       | cons q rest =>
-        simp only
-        refine ⟨?_, ?_⟩
-        · simp only [List.map_append, List.map_cons, List.map_nil]
-          rw [List.pairwise_append]
-          refine ⟨hsw.1, by simp, ?_⟩
-          intro a ha b hb
-          simp only [List.mem_singleton] at hb
-          obtain ⟨p, hp, rfl⟩ := List.mem_map.mp ha
-          have := hsw.2 p hp
-          have e : (sweep s).1.lastRid = s.lastRid := rfl
-          omega
-        · intro p hp
-          rcases List.mem_append.mp hp with hp | hp
-          · have := hsw.2 p hp
+        cases hr : q.req with
+        | none =>
+          simp only [hr, List.append_nil]
+          exact ⟨hsw.1, fun p hp => Nat.le_succ_of_le (hsw.2 p hp)⟩
+        | some x =>
+          simp only [hr]
+          refine ⟨?_, ?_⟩
+          · simp only [List.map_append, List.map_cons, List.map_nil]
+            rw [List.pairwise_append]
+            refine ⟨hsw.1, by simp, ?_⟩
+            intro a ha b hb
+            simp only [List.mem_singleton] at hb
+            obtain ⟨p, hp, rfl⟩ := List.mem_map.mp ha
+            have := hsw.2 p hp
             have e : (sweep s).1.lastRid = s.lastRid := rfl
-            simp only; omega
-          · simp only [List.mem_singleton] at hp; subst hp; simp
+            omega
+          · intro p hp
+            rcases List.mem_append.mp hp with hp | hp
+            · have := hsw.2 p hp
+              have e : (sweep s).1.lastRid = s.lastRid := rfl
+              simp only; omega
+            · simp only [List.mem_singleton] at hp; subst hp; simp
     · exact hsw
   | chunk c =>
     simp only [step]
@@ -696,9 +811,9 @@ theorem rids_unique (a b : Nat) (ops : List Op) :
 /-- a response racing with the deadline: the response wins if it arrives before the sweep, the
 timeout wins otherwise; either way the request completes once and the loser is ignored -/
 example :
-    (runLog (init 2 5) [.submit false, .pump, .expire 1001, .chunk ⟨1001, 1, .final, 7, 0, 1⟩, .sweep, .close 0]).2
+    (runLog (init 2 5) [.submit false, .pump, .setDeadline 1001 (-1), .chunk ⟨1001, 1, .final, 7, 0, 1⟩, .sweep, .close 0]).2
       = [(0, .response 7 [(7, 0)])] ∧
-    (runLog (init 2 5) [.submit false, .pump, .expire 1001, .sweep, .chunk ⟨1001, 1, .final, 7, 0, 1⟩, .close 0]).2
+    (runLog (init 2 5) [.submit false, .pump, .setDeadline 1001 (-1), .sweep, .chunk ⟨1001, 1, .final, 7, 0, 1⟩, .close 0]).2
       = [(0, .err BadTimeout)] := by decide
 
 /-- multi-chunk response with the final chunk overtaking, a duplicate, an unknown id; then close -/
